@@ -77,3 +77,40 @@ fn k_pbd_no_result() {
     kani::cover!(true, "reachable");
     core::mem::forget(pbd);
 }
+
+// items sorted by body id, links stored in a different order (links[i].deformer_index != i), chain 101 -> 201 -> 301 (root)
+fn mk_shuffled(x: [f32; 3]) -> PreBoneDeformer {
+    PreBoneDeformer { header: PreBoneDeformerHeader { count: 3,
+        items: vec![item(101, 2, Some(mat(x[0]))), item(201, 0, Some(mat(x[1]))), item(301, 1, Some(mat(x[2])))],
+        links: vec![link(1, -1, 1), link(-1, -1, 2), link(0, 5, 0)] } }
+}
+fn walk_contract(to: u16, want: usize) {
+    // concrete, pairwise distinct matrices (symbolic floats push CBMC past the cap on this walk)
+    let x: [f32; 3] = [1.5, -2.25, 3.0];
+    let pbd = mk_shuffled(x);
+    match pbd.get_deform_matrices(101, to) {
+        Some(r) => {
+            assert!(r.bones.len() == want, "one bone per node on the chain from `from` up to, excluding, `to` (or up to and including the root)");
+            let mut k = 0;
+            while k < want { assert!(r.bones[k].deform[0].to_bits() == x[k].to_bits() && r.bones[k].deform[11].to_bits() == x[k].to_bits(), "matrix of chain node k, in chain order"); k += 1; }
+            core::mem::forget(r);
+        }
+        None => assert!(false, "a leaf with a sibling link yields matrices"),
+    }
+    kani::cover!(true, "reachable");
+    core::mem::forget(pbd);
+}
+
+//@unit props=C16 label=B tier=parked fn=pbd::PreBoneDeformer::get_deform_matrices bound="3-node chain 101 -> 201 -> 301 with the link table stored in a different order than the item table; one bone per node with concrete, pairwise distinct matrices; query 101 -> 301 (a single concrete deformer: the weakest kind of bounded check)"
+//@desc the walk follows parent links and takes each ancestor's item through the link's deformer index: matrices of 101 and 201, in chain order, stopping before 301
+#[kani::proof]
+#[kani::unwind(5)]
+#[kani::stub(alloc::fmt::format, stub_fmt)]
+fn k_pbd_walk_to_grandparent() { walk_contract(301, 2); }
+
+//@unit props=C16 label=B tier=parked fn=pbd::PreBoneDeformer::get_deform_matrices bound="same 3-node deformer; query 101 -> 999 (target not on the chain)"
+//@desc with a target that is not an ancestor the walk runs up to and including the root: matrices of 101, 201, 301
+#[kani::proof]
+#[kani::unwind(5)]
+#[kani::stub(alloc::fmt::format, stub_fmt)]
+fn k_pbd_walk_to_root() { walk_contract(999, 3); }
